@@ -4,7 +4,15 @@ Every command of a case is the tiny script CHILD run by the interpreter (`sys.ex
   * appends `S <id> <pid>` to <dir>/log and creates <dir>/started.<id>   (proof that it started)
   * for the concurrent steps waits until <dir>/go.<id> exists                (explicit hand-off)
   * writes the scripted stdout / stderr, appends `D <id>`, creates <dir>/done.<id>
-  * exits with the scripted code.
+  * exits with the scripted code - or, for a negative code -N, kills itself with signal N (default
+    disposition restored first), so the implementation sees returncode -N.
+A command that *cannot be started* (P["spawn"]) is no child at all:
+  missing  -> <dir>/missing.<id>   (no such file: FileNotFoundError out of Popen)
+  noexec   -> <dir>/noexec.<id>    (a 0644 file: PermissionError)
+  badquote -> an instruction with an unbalanced quote (ValueError out of shlex.split; not under a shell)
+  cwd      -> an ordinary child command inside a map whose `cwd` is <dir>/nocwd.<key> (FileNotFoundError for
+              every command of that map - also under a shell)
+The exception's `filename` identifies the command (map for `cwd`); the marker files prove nothing started.
 A harness thread (`Releaser`) creates the go files in the completion order of the case's schedule,
 waiting after each release until the process is gone and - in a serial sub-list - until its successor
 has started. No sleeps are used to order anything; every wait polls for an explicit file/pid
@@ -12,7 +20,8 @@ condition under a watchdog. A process that starts although the plan does not exp
 at once (so nothing can deadlock) and reported as an anomaly.
 
 Abstract configuration (JSON) -> the `cmd` / `cmds` context value, and -> the model request:
-  P    = {"id", "code", "out", "err"}
+  P    = {"id", "code", "out", "err"[, "spawn": "missing"|"noexec"|"badquote"|"cwd"[, "cwdkey": id]]}
+         code: 0, 1..255, or -N (killed by signal N); with "spawn": code 0, out/err ""
   cmd  : {"str": P} | {"map": M} | {"list": [{"str": P} | {"map": M}]}
          M = {"run": {"str": P} | {"list": [P]}, "save": bool, "bytes": bool}
   cmds : {"str": P} | {"map": A} | {"list": [{"str": P} | {"sub": [P]} | {"map": A}]}
@@ -21,6 +30,7 @@ Abstract configuration (JSON) -> the `cmd` / `cmds` context value, and -> the mo
 from __future__ import annotations
 
 import os
+import re
 import shlex
 import shutil
 import sys
@@ -50,7 +60,17 @@ if err != '-':
 sys.stdout.flush(); sys.stderr.flush()
 log('D %s\n' % ident)
 open(os.path.join(d, 'done.' + ident), 'w').close()
-os._exit(int(code))
+c = int(code)
+if c < 0:
+    import signal
+    try:
+        signal.signal(-c, signal.SIG_DFL)
+    except (OSError, ValueError):
+        pass
+    os.kill(os.getpid(), -c)
+    time.sleep(10)
+    os._exit(98)
+os._exit(c)
 '''
 
 SENTINEL = '<<cmdOut untouched>>'
@@ -62,37 +82,58 @@ WAIT_S = 10.0              # one expected condition
 # abstract config -> model request
 # --------------------------------------------------------------------------
 
-def serial_model_cmds(cfg):
+SPAWN_KIND = {'missing': 'notFound', 'cwd': 'notFound', 'noexec': 'permission', 'badquote': 'badArgs'}
+KIND_TYPE = {'notFound': 'FileNotFoundError', 'permission': 'PermissionError', 'badArgs': 'ValueError'}
+
+
+def mp(p):
+    """P -> the model's Proc."""
+    sp = p.get('spawn')
+    return {'id': p['id'], 'spawn': SPAWN_KIND[sp] if sp else None, 'code': p['code'], 'out': p['out'],
+            'err': p['err']}
+
+
+def spawn_label(p):
+    """What identifies an unstartable command in the exception the implementation raises."""
+    sp = p.get('spawn')
+    if sp in ('missing', 'noexec'):
+        return f"{sp}.{p['id']}"
+    if sp == 'cwd':
+        return f"nocwd.{p['cwdkey']}"
+    return sp    # 'badquote' (a ValueError carries no command) / None
+
+
+def serial_model_cmds(cfg, conv=mp):
     def of_map(m):
         run = m['run']
-        ps = [run['str']] if 'str' in run else list(run['list'])
+        ps = [conv(run['str'])] if 'str' in run else [conv(p) for p in run['list']]
         save = bool(m.get('save', False))
         return {'run': ps, 'save': save, 'text': save and not m.get('bytes', False)}
 
     def of_item(it):
         if 'str' in it:
-            return {'run': [it['str']], 'save': False, 'text': False}
+            return {'run': [conv(it['str'])], 'save': False, 'text': False}
         return of_map(it['map'])
     if 'list' in cfg:
         return [of_item(it) for it in cfg['list']]
     return [of_item(cfg)]
 
 
-def async_model_cmds(cfg):
+def async_model_cmds(cfg, conv=mp):
     def entry(e):
-        return {'one': e['str']} if 'str' in e else {'serial': list(e['sub'])}
+        return {'one': conv(e['str'])} if 'str' in e else {'serial': [conv(p) for p in e['sub']]}
 
     def of_map(m):
         run = m['run']
         save = bool(m.get('save', False))
-        r = {'single': run['str']} if 'str' in run else {'many': [entry(e) for e in run['list']]}
+        r = {'single': conv(run['str'])} if 'str' in run else {'many': [entry(e) for e in run['list']]}
         return {'run': r, 'save': save, 'text': save and not m.get('bytes', False)}
 
     def of_item(it):
         if 'str' in it:
-            return {'run': {'single': it['str']}, 'save': False, 'text': False}
+            return {'run': {'single': conv(it['str'])}, 'save': False, 'text': False}
         if 'sub' in it:   # Command([cmd]): a one-element run list holding the serial sub-list
-            return {'run': {'many': [{'serial': list(it['sub'])}]}, 'save': False, 'text': False}
+            return {'run': {'many': [{'serial': [conv(p) for p in it['sub']]}]}, 'save': False, 'text': False}
         return of_map(it['map'])
     if 'list' in cfg:
         return [of_item(it) for it in cfg['list']]
@@ -102,7 +143,7 @@ def async_model_cmds(cfg):
 def serial_decls(cfg):
     """Declaration order: [(P, save, text)] - written from the config, not through the model."""
     out = []
-    for c in serial_model_cmds(cfg):
+    for c in serial_model_cmds(cfg, conv=lambda p: p):
         for p in c['run']:
             out.append((p, c['save'], c['text']))
     return out
@@ -111,7 +152,7 @@ def serial_decls(cfg):
 def async_lanes(cfg):
     """Lanes in declaration order: [([P], save, text)]."""
     lanes = []
-    for c in async_model_cmds(cfg):
+    for c in async_model_cmds(cfg, conv=lambda p: p):
         r = c['run']
         if 'single' in r:
             lanes.append(([r['single']], c['save'], c['text']))
@@ -135,6 +176,19 @@ class Scratch:
         self.shell = shell
 
     def cmdline(self, p):
+        sp = p.get('spawn')
+        if sp in ('missing', 'noexec', 'badquote'):
+            if self.shell:
+                raise ValueError(f'spawn fault {sp!r} does not exist under a shell (the shell starts)')
+            if sp == 'missing':
+                return os.path.join(self.dir, f"missing.{p['id']}") + ' --arg'
+            if sp == 'noexec':
+                path = os.path.join(self.dir, f"noexec.{p['id']}")
+                with open(path, 'w') as f:
+                    f.write('#!/bin/sh\nexit 0\n')
+                os.chmod(path, 0o644)
+                return path + ' --arg'
+            return os.path.join(self.dir, f"bq.{p['id']}") + ' "no closing quotation'
         hx = lambda s: s.encode('ascii').hex() if s else '-'
         line = (f"{sys.executable} -S {self.script} {self.dir} {p['id']} {p['code']} {self.wait} "
                 f"{hx(p['out'])} {hx(p['err'])}")
@@ -149,18 +203,43 @@ class Scratch:
         shutil.rmtree(self.dir, ignore_errors=True)
 
 
+def map_procs(m):
+    """All P of one expanded-syntax map, in declaration order."""
+    run = m['run']
+    if 'str' in run:
+        return [run['str']]
+    out = []
+    for e in run['list']:
+        out += [e] if 'id' in e else ([e['str']] if 'str' in e else list(e['sub']))
+    return out
+
+
 def real_config(cfg, sc: Scratch):
     def P(p):
+        if p.get('spawn') == 'cwd':
+            raise ValueError('a `cwd` fault outside an expanded-syntax map')
         return sc.cmdline(p)
 
     def of_map(m):
         run = m['run']
-        if 'str' in run:
-            r = P(run['str'])
+        ps = map_procs(m)
+        cwd = None
+        if any(p.get('spawn') == 'cwd' for p in ps):
+            keys = {p.get('cwdkey') for p in ps}
+            if not all(p.get('spawn') == 'cwd' for p in ps) or len(keys) != 1 or None in keys:
+                raise ValueError('a missing cwd makes every command of its map unstartable')
+            cwd = os.path.join(sc.dir, f'nocwd.{keys.pop()}')
+            P_ = lambda p: sc.cmdline({**p, 'spawn': None})     # an ordinary command; it is the cwd that is missing
         else:
-            r = [(P(e) if 'id' in e else (P(e['str']) if 'str' in e else [P(x) for x in e['sub']]))
+            P_ = P
+        if 'str' in run:
+            r = P_(run['str'])
+        else:
+            r = [(P_(e) if 'id' in e else (P_(e['str']) if 'str' in e else [P_(x) for x in e['sub']]))
                  for e in run['list']]
         d = {'run': r}
+        if cwd:
+            d['cwd'] = cwd
         if 'save' in m:
             d['save'] = m['save']
         if m.get('bytes'):
@@ -209,8 +288,23 @@ def result_obs(r, sc, procs):
         return {'id': i, 'code': r.returncode, 'stdout': out_obs(r.stdout), 'stderr': out_obs(r.stderr),
                 'cmd_ok': r.cmd == sc.expected_cmd(procs[i])}
     if isinstance(r, BaseException):
-        return {'exc': type(r).__name__, 'msg': str(r)[:200]}
+        return {'exc': spawn_err_obs(r, sc) or {'type': type(r).__name__, 'msg': str(r)[:200]}}
     return {'?': repr(r)[:200]}
+
+
+_LABEL = re.compile(r'^(missing|noexec|nocwd)\.\d+$')
+
+
+def spawn_err_obs(e, sc):
+    """The exception of a command that could not be started -> {'spawn': label, 'type': name}; else None."""
+    from pypyr.errors import get_error_name
+    if isinstance(e, OSError) and e.filename is not None:
+        fn = os.fsdecode(e.filename)
+        if os.path.dirname(fn) == sc.dir and _LABEL.match(os.path.basename(fn)):
+            return {'spawn': os.path.basename(fn), 'type': get_error_name(e)}
+    if type(e) is ValueError and 'No closing quotation' in str(e):
+        return {'spawn': 'badquote', 'type': get_error_name(e)}
+    return None
 
 
 def err_obs(e, sc, procs):
@@ -222,6 +316,9 @@ def err_obs(e, sc, procs):
             return {'id': i, 'code': e.returncode, 'type': name, 'cmd_ok': e.cmd == sc.expected_cmd(procs[i])}
         except Exception:
             pass
+    sp = spawn_err_obs(e, sc)
+    if sp:
+        return sp
     return {'type': name, 'msg': str(e)[:300]}
 
 
